@@ -418,6 +418,33 @@ func (e *Engine) calleeProps(q string) map[string]bool {
 	return m
 }
 
+// globalUsers: the functions (qualified names) that mention the package-level
+// variable name.
+func (e *Engine) globalUsers(name string) []string {
+	obj := e.pkg.Types.Scope().Lookup(name)
+	if obj == nil {
+		return nil
+	}
+	var out []string
+	for q, fd := range e.funcs {
+		if e.specFns[q] || fd.Body == nil {
+			continue
+		}
+		uses := false
+		ast.Inspect(fd.Body, func(n ast.Node) bool {
+			if id, ok := n.(*ast.Ident); ok && e.info.Uses[id] == obj {
+				uses = true
+			}
+			return !uses
+		})
+		if uses {
+			out = append(out, q)
+		}
+	}
+	sort.Strings(out)
+	return out
+}
+
 func (e *Engine) fieldWriters(key string) []string {
 	sn, fn, ok := strings.Cut(key, ".")
 	if !ok {
